@@ -14,6 +14,7 @@ import (
 	"go.minekube.com/gate/pkg/edition/java/profile"
 	"go.minekube.com/gate/pkg/edition/java/proto/packet"
 	"go.minekube.com/gate/pkg/edition/java/proto/state"
+	"go.minekube.com/gate/pkg/edition/java/proxy/message"
 	"go.minekube.com/gate/pkg/gate/proto"
 	zz "go.minekube.com/gate/pkg/internal/zzverif"
 )
@@ -108,15 +109,20 @@ func VerifHarness_OnlineModeAdmission() {
 	cfg.OnlineMode = true
 	authn := &zzAuth{verifyErr: zz.Bool(), decryptErr: zz.Bool(), joinErr: zz.Bool(), joinOnline: zz.Bool()}
 	preLogin := PreLoginResult(zz.Choose(4))
+	askPlugin := zz.Bool() // a pre-login subscriber sends a login plugin message and awaits the answer
+	var inbound *loginInboundConn
 	ev := &zzEvents{onFire: func(e event.Event) {
 		if pe, ok := e.(*PreLoginEvent); ok {
 			pe.result = preLogin
+			if askPlugin {
+				_ = inbound.SendLoginPluginMessage(message.LegacyChannelIdentifier("q"), []byte{1}, zzConsumer(func([]byte) error { return nil }))
+			}
 		}
 	}}
 	conn := newZZConn(767, state.Login)
 	conn.ctx, conn.cancel = context.WithCancel(context.Background())
 	deps := &sessionHandlerDeps{eventMgr: ev, configProvider: &zzConfigProvider{cfg: &cfg}, authenticator: authn}
-	inbound := newLoginInboundConn(newInitialInbound(conn, nil, packet.LoginHandshakeIntent))
+	inbound = newLoginInboundConn(newInitialInbound(conn, nil, packet.LoginHandshakeIntent))
 	h := newInitialLoginSessionHandler(conn, inbound, deps).(*initialLoginSessionHandler)
 	h.log = logr.Discard()
 	var admitted []zzAdmission
@@ -139,31 +145,33 @@ func VerifHarness_OnlineModeAdmission() {
 	steps := 1 + zz.Choose(3)
 	var sentSecret []byte
 	brokeOrder := false
+	logins, encResponses := 0, 0 // what the client has sent so far (independent of the handler's own state)
 	for i := 0; i < steps; i++ {
 		if conn.closed > 0 {
 			break // the read loop hands no further packet to a handler once the connection is closed
 		}
 		before := len(admitted)
 		wasClosed := conn.closed > 0
-		stateBefore := h.currentState
 		switch zz.Choose(4) {
 		case 0:
-			h.HandlePacket(&proto.PacketContext{Packet: &packet.ServerLogin{Username: name}, Payload: []byte{0}})
-			if stateBefore != loginPacketExpectedLoginState {
-				brokeOrder = true
+			if logins > 0 {
+				brokeOrder = true // login start twice
 			}
+			logins++
+			h.HandlePacket(&proto.PacketContext{Packet: &packet.ServerLogin{Username: name}, Payload: []byte{0}})
 		case 1:
 			token := zz.Bytes(4)
 			secret := zz.Bytes(2)
 			sentSecret = secret
-			h.HandlePacket(&proto.PacketContext{Packet: &packet.EncryptionResponse{SharedSecret: secret, VerifyToken: token}, Payload: []byte{1}})
-			if stateBefore != encryptionRequestSentLoginState {
-				brokeOrder = true
+			if encResponses > 0 || zzEncryptionRequests(conn) == 0 {
+				brokeOrder = true // an encryption response twice, or before the proxy asked for one
 			}
+			encResponses++
+			h.HandlePacket(&proto.PacketContext{Packet: &packet.EncryptionResponse{SharedSecret: secret, VerifyToken: token}, Payload: []byte{1}})
 			if len(admitted) > before {
 				a := admitted[len(admitted)-1]
 				zz.Assert(a.onlineMode, "an encryption response led to an offline-mode admission")
-				zz.Assert(stateBefore == encryptionRequestSentLoginState && len(h.verify) == 4, "a client was admitted on an encryption response the proxy never asked for")
+				zz.Assert(zzEncryptionRequests(conn) == 1 && len(h.verify) == 4, "a client was admitted on an encryption response the proxy never asked for")
 				zz.Assert(bytes.Equal(zzRSADec(token), h.verify) && authn.verified > 0, "a client was admitted without returning the verify token the proxy issued")
 				zz.Assert(!authn.decryptErr && len(authn.decrypted) == 1, "a client was admitted although the shared secret did not decrypt")
 				zz.Assert(bytes.Equal(conn.secret, zzRSADec(sentSecret)) && conn.count("enable-encryption") == 1, "encryption was not enabled with exactly the decrypted shared secret before admission")
@@ -199,6 +207,20 @@ func VerifHarness_OnlineModeAdmission() {
 		zz.Assert(len(admitted) == 0, "a client denied by a pre-login handler was admitted")
 	}
 	zz.Reach("sequence")
+}
+
+type zzConsumer func([]byte) error
+
+func (f zzConsumer) OnMessageResponse(b []byte) error { return f(b) }
+
+func zzEncryptionRequests(c *zzConn) int {
+	n := 0
+	for _, o := range c.log {
+		if _, ok := o.packet.(*packet.EncryptionRequest); ok {
+			n++
+		}
+	}
+	return n
 }
 
 func VerifMutant_Admission() {
